@@ -237,6 +237,10 @@ pub type ProbeFn<U, E> = Rc<dyn Fn(&Env<U, E>, State<U, E>) -> Option<State<U, E
 pub struct Builder<U: User, E: Engine<U>> {
     pub env: Rc<Env<U, E>>,
     pub probes: Vec<ProbeFn<U, E>>,
+    /// which of the library's conjunction constructors builds conjunctions (0: from_vec,
+    /// 1: from_array, 2: from_conjunctions with one clause per goal); fixed per program from a
+    /// hash of its text, so that all of them are exercised and a case always uses the same one
+    pub conj_variant: u8,
 }
 
 /// The two goal typings. `Bfs` builds `Goal`, `Dfs` builds `DFSGoal`.
@@ -268,12 +272,31 @@ impl<U: User, E: Engine<U>> Builder<U, E> {
         Builder {
             env: Rc::new(Env::new(nvars)),
             probes: vec![],
+conj_variant: 0,
         }
     }
 
     pub fn conj<K: Kind<U, E>>(&self, gs: &[G]) -> K {
         let v: Vec<K> = gs.iter().map(|g| self.goal::<K>(g)).collect();
-        InferredConj::from_vec(v).cast_into()
+        match self.conj_variant % 3 {
+            0 => InferredConj::from_vec(v).cast_into(),
+            1 => InferredConj::from_array(&v).cast_into(),
+            _ => {
+                // one clause per goal, as an operator body `op { a, b }` is handed over
+                let clauses: Vec<&[K]> = v.iter().map(std::slice::from_ref).collect();
+                InferredConj::from_conjunctions(&clauses).cast_into()
+            }
+        }
+    }
+
+    /// The same builder with the conjunction constructor chosen from the program text.
+    pub fn for_program(&self, body: &[G]) -> Builder<U, E> {
+        let text = format!("{:?}", body);
+        let mut h: u32 = 2166136261;
+        for b in text.bytes() {
+            h = (h ^ b as u32).wrapping_mul(16777619);
+        }
+        Builder { env: Rc::clone(&self.env), probes: self.probes.clone(), conj_variant: (h % 3) as u8 }
     }
 
     fn arms<K: Kind<U, E>>(&self, arms: &[Vec<G>]) -> Vec<Vec<K>> {
@@ -308,6 +331,7 @@ impl<U: User, E: Engine<U>> Builder<U, E> {
                 let mut b = Builder {
                     env: Rc::clone(&self.env),
                     probes: self.probes.clone(),
+conj_variant: self.conj_variant,
                 };
                 let mut vars = vec![];
                 for v in vs {
@@ -322,6 +346,7 @@ impl<U: User, E: Engine<U>> Builder<U, E> {
                 let b = Builder {
                     env: Rc::clone(&self.env),
                     probes: self.probes.clone(),
+conj_variant: self.conj_variant,
                 };
                 let body = (**body).clone();
                 Closure::new(ClosureOperatorParam::new(Box::new(move || b.goal::<K>(&body)))).cast_into()
@@ -382,6 +407,7 @@ impl<U: User, E: Engine<U>> Builder<U, E> {
                 let b = Builder {
                     env: Rc::clone(&self.env),
                     probes: self.probes.clone(),
+conj_variant: self.conj_variant,
                 };
                 let body = body.clone();
                 let x = *x;
@@ -401,6 +427,7 @@ impl<U: User, E: Engine<U>> Builder<U, E> {
                 let mut b = Builder {
                     env: Rc::clone(&self.env),
                     probes: self.probes.clone(),
+conj_variant: self.conj_variant,
                 };
                 let mut projected = vec![];
                 for v in vs {
@@ -423,6 +450,7 @@ impl<U: User, E: Engine<U>> Builder<U, E> {
                         let mut b = Builder {
                             env: Rc::clone(&self.env),
                             probes: self.probes.clone(),
+conj_variant: self.conj_variant,
                         };
                         for v in pv {
                             if let T::V(i) = v {
@@ -517,6 +545,7 @@ impl<U: User, E: Engine<U>> Builder<U, E> {
         Builder {
             env: Rc::new(env),
             probes: self.probes.clone(),
+conj_variant: self.conj_variant,
         }
     }
 }
@@ -642,7 +671,17 @@ pub fn raw_iter<'a, U: User, E: Engine<U>>(
 pub fn query_goal<U: User, E: Engine<U>>(b: &Builder<U, E>, nq: u32, body: &[G]) -> (Vec<LTerm<U, E>>, Goal<U, E>) {
     let qvars: Vec<LTerm<U, E>> = (0..nq).map(|i| b.env.var(i)).collect();
     let q = LTerm::var("__query__");
-    let body_goal: Goal<U, E> = Conj::from_vec(body.iter().map(|g| b.bfs(g)).collect());
+    let b = &b.for_program(body);
+    let goals: Vec<Goal<U, E>> = body.iter().map(|g| b.bfs(g)).collect();
+    // the top-level body of a query is a `Conj` (not an `InferredConj`), in the same rotation
+    let body_goal: Goal<U, E> = match b.conj_variant % 3 {
+        0 => Conj::from_vec(goals),
+        1 => Conj::from_array(&goals),
+        _ => {
+            let clauses: Vec<&[Goal<U, E>]> = goals.iter().map(std::slice::from_ref).collect();
+            Conj::from_conjunctions(&clauses)
+        }
+    };
     let inner: Vec<Goal<U, E>> = vec![
         proto_vulcan::relation::eq(q.clone(), LTerm::from_vec(qvars.clone())).cast_into(),
         proto_vulcan::query::reified(body_goal, proto_vulcan::state::reify(q.clone())),
